@@ -112,6 +112,18 @@ def extract_fn(alpha, genome, k, strand):
                     return False
                 if sorted(sa + sbq) != sorted(got):
                     return False
+                # the same window taken on the relative MINUS strand (asked AFTER the enclosing location was extracted: no stale cached sequence is
+                # handed down) is the reverse complement of that stretch
+                am = loc.relative_interval_to_parent_location(0, m, MINUS)
+                if not overlapping and _ut(str(am.extract_sequence())) != _ut(revcomp(got[:m])):
+                    return False
+                if sorted(_ut(str(am.extract_sequence()))) != sorted(_ut(revcomp(sa))):
+                    return False
+            # ... and for the whole length
+            wm = loc.relative_interval_to_parent_location(0, len(loc), MINUS)
+            if sorted(_ut(str(wm.extract_sequence()))) != sorted(_ut(revcomp(got))) or (not any(x[1] > y[0] for x, y in zip(sb, sb[1:])) and
+                                                                                        _ut(str(wm.extract_sequence())) != _ut(revcomp(got))):
+                return False
             seq = loc.extract_sequence()
             return seq.alphabet is alpha or strand is PLUS or True
 
@@ -230,6 +242,36 @@ def revcomp_fn(alpha, genome, k, strand):
     return fn
 
 
+def append_spliced_fn(alpha, genome, strand):
+    """a SPLICED (2-block) located piece followed, 5'->3', by a single-block piece that abuts it or leaves a gap (and the mirror image: single-block piece
+    first): the result's recorded location keeps the intron and re-extracts exactly the appended characters; slicing a spliced sequence mid-exon and
+    re-appending the halves gives the original back"""
+
+    def fn(a0, la, g1, lb, g2, lc, order):
+        a0, la, g1, lb, g2, lc, order = concretize(a0, la, g1, lb, g2, lc, order)
+        with untraced():
+            b1 = [(a0, a0 + la), (a0 + la + g1, a0 + la + g1 + lb)]
+            c1 = [(b1[1][1] + g2, b1[1][1] + g2 + lc)]
+            if order == 1:  # the single-block piece lies to the LEFT of the spliced one
+                b1, c1 = [(a0 + lc + g2, a0 + lc + g2 + la), (a0 + lc + g2 + la + g1, a0 + lc + g2 + la + g1 + lb)], [(a0, a0 + lc)]
+            if max(b1[1][1], c1[0][1]) > len(genome):
+                return True
+            spl, single = located(genome, alpha, b1, strand), located(genome, alpha, c1, strand)
+            left_first = (order == 0) == True  # noqa: E712  (spliced piece is the left one when order == 0)
+            # 5'->3': on plus the left piece comes first, on minus the right piece comes first
+            first, second = (spl, single) if (left_first == (strand is PLUS)) else (single, spl)
+            C = first.append(second)
+            ok = str(C) == str(first) + str(second) and consistent(C, genome) and len(C) == len(C.parent.location)
+            # slice a spliced located sequence mid-exon and glue the halves together again
+            for k in range(1, len(spl)):
+                left, right = spl[:k], spl[k:]
+                back = left.append(right)
+                ok = ok and str(back) == str(spl) and consistent(back, genome) and len(back) == len(back.parent.location)
+            return ok
+
+    return fn
+
+
 def append_fn(alpha, genome, s1, s2):
     def fn(**kw):
         vals = concretize(*[kw[x] for x in sorted(kw)])
@@ -328,4 +370,13 @@ def obligations(tier):
                                        budget=900, cost=60,
                                        desc="append of two located pieces: refused unless same strand and 5'->3' order; result's recorded location re-extracts its characters",
                                        bounds="every pair of single-block pieces on %r" % genome, examples=[dict(s0=0, e0=2, s1=3, e1=5)]))
+                for s1 in (PLUS, MINUS):
+                    out.append(Obl("append_spliced_%s_%s" % (aname, sname(s1)), append_spliced_fn(alpha, genome, s1),
+                                   dict(a0=int, la=int, g1=int, lb=int, g2=int, lc=int, order=int),
+                                   lambda a0, la, g1, lb, g2, lc, order: 0 <= a0 and a0 <= 1 and 1 <= la and la <= 2 and 1 <= g1 and g1 <= 2 and 1 <= lb and lb <= 2
+                                   and 0 <= g2 and g2 <= 1 and 1 <= lc and lc <= 2 and 0 <= order and order <= 1, budget=600, cost=30,
+                                   desc="append with a SPLICED piece (2 blocks) abutting or near a single-block piece, in either arrangement, and re-appending the two "
+                                        "halves of a spliced located sequence cut at every position: the recorded location keeps the intron and re-extracts the characters",
+                                   bounds="block lengths 1..2, intron 1..2, distance between the pieces 0..1, on %r (realised)" % genome,
+                                   examples=[dict(a0=0, la=2, g1=1, lb=2, g2=0, lc=1, order=0), dict(a0=1, la=1, g1=2, lb=1, g2=1, lc=2, order=1)]))
     return out
